@@ -119,7 +119,7 @@ package immutable
 //@   ghostparam h fp.Hashable[K]
 //@   option summary
 //@   option assumerec=mergeIntoNode
-//@   option timeout=240
+//@   option timeout=480
 //@   requires node != nil && node.keyHashValue() != keyHash && shift <= 30 && shift%5 == 0
 //@   requires (node.keyHashValue() >> shift) != (keyHash >> shift)
 //@   requires veriflaws.HashLaws(h) && leafWF(node, h) && keyHash == h.Hash(key) && (forall s uint :: Rec_nodeWF(mapNode[K, V](node), s, h))
@@ -184,7 +184,7 @@ package immutable
 //@   loop 0 invariant 0 <= i && i < len(n.entries) && (forall j int :: 0 <= j && j < i ==> !h.Eqv(n.entries[j].key, key))
 //@   loop 0 decreases len(n.entries) - i
 //
-//@ include internal/verifspec/hamtnode.contracts HEAD=func·(*mapHashCollisionNode). OPTS=option·assume=indexOf,get,mergeIntoNode·timeout=120 DOPTS=option·note=none
+//@ include internal/verifspec/hamtnode.contracts HEAD=func·(*mapHashCollisionNode). OPTS=option·assume=indexOf,get,mergeIntoNode·timeout=240 DOPTS=option·note=none
 //
 // ---- hash array node (branch): 32 slots indexed by the hash fragment
 //@ include internal/verifspec/hamtnode.contracts HEAD=func·(*mapHashArrayNode). OPTS=option·timeout=240·steps=6000000 DOPTS=option·tier=thorough
@@ -317,6 +317,7 @@ package immutable
 //@ lemma setBuilderBuildIsSnapshot[V any](h fp.Hashable[V], a, b, c V)
 //@   prop C04 C03
 //@   option frame=off
+//@   option timeout=60
 //@   requires veriflaws.HashLaws(h)
 //@   ensures scriptSetBuilderSnapshot(h, a, b, c)
 //@   tag laterAddDoesNotChangeTheSet
